@@ -52,7 +52,7 @@ variable {n nb bs s : Nat}
 def subCols {r c : Nat} (M : Mat α r c) (v : Vec α r) : Mat α r c := Mat.of (fun i j => M i j - v i)
 
 /-- `M *= diag(w)` (column `j` scaled by `w j`) -/
-def scaleCols {r c : Nat} (M : Mat α r c) (w : Vec α c) : Mat α r c := Mat.of (fun i j => M i j * w j)
+def sukfScaleCols {r c : Nat} (M : Mat α r c) (w : Vec α c) : Mat α r c := Mat.of (fun i j => M i j * w j)
 
 /-- `sqrt_ut_weight`: element-wise square root of the covariance weights -/
 def sqrtW (wc : Vec α s) : Vec α s := Vec.eval (Vec.of (fun j => Transc.sqrt (wc j)))
@@ -100,10 +100,10 @@ def sukfComp (inv : InvFn α) (R : SNoise α (nb * bs) bs) (m : Vec α n) (X : M
   let predMean := Yp.mulVec wm
   let ν := Vec.eval (Vec.sub y predMean)
   let sq := sqrtW wc
-  let Y := Mat.eval (scaleCols (subCols Yp predMean) sq)
+  let Y := Mat.eval (sukfScaleCols (subCols Yp predMean) sq)
   let Cinv := sukfCinv inv R Y
   let d := sukfD inv R Y ν
-  let Xw := Mat.eval (scaleCols (subCols X m) sq)
+  let Xw := Mat.eval (sukfScaleCols (subCols X m) sq)
   let C := Mat.eval (inv s Cinv)
   let XC := Mat.mul Xw C
   { predMean := predMean, innov := ν, Y := Y, Xw := Xw
@@ -126,7 +126,7 @@ variable {n msz s : Nat}
 
 /-- `A · diag(w) · Bᵀ` — the weighted (cross-)covariance of two sets of offsets -/
 def wOuter {r r' c : Nat} (A : Mat α r c) (w : Vec α c) (B : Mat α r' c) : Mat α r r' :=
-  Mat.mul (scaleCols A w) B.transpose
+  Mat.mul (sukfScaleCols A w) B.transpose
 
 /-- The standard additive unscented correction of one component (`unscented_transform` for an
     additive measurement model, then `UKFCorrection::correctStep`): `Pyy = Yo W Yoᵀ + R`,
